@@ -209,7 +209,7 @@ export async function run(ctx) {
     // the unmodified corpus itself (every test program of the repository must stay total)
     for (const c of corpusPrograms()) await judge(ctx, { files: { "entry.ts": c.text }, settings: { string_formats: ["password", "User", "ReadAuthorizedUser", "WriteAuthorizedUser"], number_formats: ["age", "NonInfiniteNumber", "NonNegativeNumber", "Rate"] } }, "corpus-verbatim");
   }
-  const n = ctx.share(240000, 6000000);
+  const n = ctx.share(720000, 6000000);
   for (let i = 0; i < n; i++) {
     const rng = new Rng(ctx.seed, `C04|${ctx.shard}|${i}`);
     const kind = rng.wpick([
@@ -521,7 +521,7 @@ export async function run(ctx) {
         }
   }
   // supported programs (success path: load + closure walk on realistic output)
-  const nSup = ctx.share(1600, 24000);
+  const nSup = ctx.share(4800, 24000);
   for await (const item of corpus(ctx, { label: "C04-supported", count: nSup, features: {} })) {
     await judge(ctx, item.req, "supported");
   }
